@@ -251,11 +251,23 @@ class ThreadingShim:
   def __init__(self, real, lock_name):
     self._real, self._lock_name = real, lock_name
 
+  HOME = {'study': ('_InMemoryResult', '__init__'), 'evolution': ('Evolution', '_setup')}
+
+  def _name(self):
+    """The study / evolution lock is the one created by the study's / algorithm's initialiser; any
+    other lock created by the module (e.g. a per-feedback-object lock) is a lock of its own."""
+    f = sys._getframe(2)      # pylint: disable=protected-access
+    owner = type(f.f_locals.get('self')).__name__
+    cls, fn = self.HOME.get(self._lock_name, (None, None))
+    if f.f_code.co_name == fn and any(k.__name__ == cls for k in type(f.f_locals.get('self')).__mro__):
+      return self._lock_name
+    return 'aux:%s.%s' % (owner, f.f_code.co_name)
+
   def Lock(self):     # pylint: disable=invalid-name
-    return CoopLock(self._lock_name, False)
+    return CoopLock(self._name(), False)
 
   def RLock(self):    # pylint: disable=invalid-name
-    return CoopLock(self._lock_name, True)
+    return CoopLock(self._name(), True)
 
   def __getattr__(self, k):
     return getattr(self._real, k)
@@ -296,6 +308,8 @@ class Run:
     self.trial_objs = {}               # trial id -> distinct Trial objects handed out under that id
     self.group_trials = {}             # group -> Trial objects handed to its workers
     self.pub_two_pending = []
+    self.completed_nmeas = {}          # trial id -> number of measurements when first seen COMPLETED
+    self.meas_viol = []
     self.mid_viol = []                 # status counters vs trial list, checked after every user-level step
     self.ended = [None] * self.n       # 'stop' | 'crash'
 
@@ -505,6 +519,7 @@ class Run:
         n = len(trials)
         ncomp = sum(1 for t in trials if t[1])
         ninf = sum(1 for t in trials if t[2])
+        self.check_measurements(result)
         if not self.mid_viol:
           if [t[0] for t in trials] != list(range(1, n + 1)):
             self.mid_viol.append('trial ids are %s' % [t[0] for t in trials])
@@ -514,6 +529,24 @@ class Run:
     finally:
       self.sched.no_preempt = False
     self.raw.append({'w': tid, 'k': 'poll', 'snap': snap})
+
+  def check_measurements(self, result):
+    for t in result.trials:
+      if t.status != 'COMPLETED':
+        continue
+      nm = len(t.measurements)
+      tid = int(t.id)
+      if tid in self.completed_nmeas and self.completed_nmeas[tid] != nm and not self.meas_viol:
+        self.meas_viol.append(['measurement-after-completion',
+                               'trial %d had %d measurements when it was completed and has %d now' % (
+                                   tid, self.completed_nmeas[tid], nm)])
+      self.completed_nmeas.setdefault(tid, nm)
+      fm = t.final_measurement
+      if (not t.infeasible and nm and fm is not None and fm.reward is not None
+          and t.measurements[-1].reward != fm.reward and not self.meas_viol):
+        self.meas_viol.append(['final-not-last-measurement',
+                               'trial %d is COMPLETED with final reward %s but its last measurement is %s' % (
+                                   tid, fm.reward, t.measurements[-1].reward)])
 
   def go(self):
     global CUR
@@ -550,6 +583,7 @@ class Run:
     except ValueError:
       result = None
     if result is not None:
+      self.check_measurements(result)
       trials = []
       for t in result.trials:
         fm = t.final_measurement
@@ -573,6 +607,7 @@ class Run:
     obs['nstudies'] = len(self.studies)
     obs['ended'] = self.ended
     obs['mid_viol'] = self.mid_viol[:1]
+    obs['meas_viol'] = self.meas_viol[:1]
     obs['clones'] = sorted(t for t, objs in self.trial_objs.items() if len(objs) > 1)
     obs['pub_two_pending'] = self.pub_two_pending[:3]
     if any(s['kind'] == 'bf.call' for s in self.env.info['sites']):
@@ -927,6 +962,10 @@ class C16(Prop):
   def generate(self, rng, tier):
     target = self.search_target()
     if target is None or target:
+      try:
+        yield from self.permitted_interleavings(t_c16.extract(strict=False))
+      except (TranslatorError, OSError):
+        pass
       yield from self.targeted(rng, tier, target or [])
     # small configurations first: the first failing case of a signature is the one that is shrunk and
     # written as replay, so it should be cheap
@@ -1014,6 +1053,42 @@ class C16(Prop):
       {'workers': [{'group': 0, 'script': [['done', 5]]}, {'group': 1, 'script': [['done', 7]]}], 'max': 3,
        'fail_at': 2},
   ]
+
+  # flag of T-LOCK -> the sites between which the region is no longer atomic
+  REGION_SITES = {
+      'getOrCreateAtomic': ['goc.test', 'goc.new', 'goc.register', 'goc.fetch'],
+      'algoSetupAtomic': ['setup.test', 'setup.do'],
+      'nextReuseAtomic': ['next.latest', 'next.status', 'next.create'],
+      'createTrialAtomic': ['ct.check', 'ct.new', 'ct.append', 'ct.pending', 'ct.latest'],
+      'completeTrialAtomic': ['cp.completed', 'cp.pending', 'cp.infeasible', 'cp.bestread', 'cp.bestwrite'],
+      'doneCheckAndSetAtomic': ['done.hasmeas', 'done.set', 'done.final', 'done.feedback', 'done.complete'],
+      'skipCheckAndSetAtomic': ['skip.set', 'skip.infeasible', 'skip.final', 'skip.complete'],
+      'addMeasurementAtomic': ['am.append'],
+      'generatorCountersAtomic': ['bf.call', 'fb.count', 'fb.count.w'],
+  }
+
+  def permitted_interleavings(self, info):
+    """For every region T-LOCK reports as not atomic (and every statement it does not recognise): park
+    a worker at each site inside the region (1st / 2nd time it gets there) and let another one run."""
+    kinds = []
+    for flag, sites in self.REGION_SITES.items():
+      if not info['flags'].get(flag, True):
+        kinds += sites
+    kinds += [x['kind'] for x in info['sites'] if x.get('unknown')]
+    seen = set()
+    for cfg in self.SMALL:
+      n = len(cfg['workers'])
+      for ctor in ('serial', 'concurrent'):
+        for kind in kinds:
+          for tid in range(n):
+            for nth in (1, 2):
+              other = (tid + 1) % n
+              key = (json.dumps(cfg, sort_keys=True), ctor, kind, tid, nth)
+              if key in seen:
+                continue
+              seen.add(key)
+              yield dict(cfg, algo=cfg.get('algo', 'record'), ctor=ctor,
+                         sched={'mode': 'directives', 'd': [['site', tid, kind, nth, other]]})
 
   def targeted(self, rng, tier, target):
     """The tie is broken: aim at the functions whose text changed. Every placement of one preemption
@@ -1177,6 +1252,8 @@ class C16(Prop):
     if want is not None and not ended and not crashed and n != want:
       return {'signature': 'wrong-number-of-trials',
               'what': '%d trials for num_examples=%s over a space of %s points' % (n, case['max'], case.get('space'))}
+    if obs.get('meas_viol'):
+      return {'signature': obs['meas_viol'][0][0], 'what': obs['meas_viol'][0][1]}
     if obs['mid_viol']:
       return {'signature': 'count-mismatch', 'what': 'in the middle of the run: ' + obs['mid_viol'][0]}
     if multi:
